@@ -130,6 +130,8 @@ def run(ctx):
             ctx.case({"words": spec.words, "polled": polled} if len(ctx.samples) < 3 and polled else None, key=si if polled else None)
             if bad:
                 ctx.violate("expect", dict(rp, observed=bad))
+            elif res.get("stalled"):
+                ctx.violate("expect-stalls", dict(rp, observed="the wait is neither complete nor polling: the connection is up, no timer is pending and nobody waits for the next update"))
             ml, chk = compare_with_model(ctx, spec, res, "model-vs-vncdo", inp)
             if chk:
                 checks.append((len(lines), len(ml), chk))
